@@ -4,7 +4,7 @@
    geometry and byte lists no longer than 2^53; so the per-access bounds theorems of Proofs_C15 apply after
    every history. *)
 From Coq Require Import ZArith List Bool Lia.
-From C15 Require Import Model_C15 Proofs_C15.
+From C15 Require Import DeepCopy_C15 Model_C15 Proofs_C15.
 Import ListNotations.
 Local Open Scope Z_scope.
 
@@ -416,7 +416,9 @@ Proof.
   cbn [step]. wf_step; facts.
   apply wf_set_data; [assumption|].
   match goal with Wr : write_bytes _ _ ?l = Some ?l' |- _ => apply write_bytes_length in Wr end.
-  unfold zlen in *. lia.
+  match goal with |- zlen (if ?b then _ else _) <= _ => destruct b end.
+  - unfold zlen in *. rewrite DeepCopy_C15.memmove_shared_length. lia.
+  - unfold zlen in *. lia.
 Qed.
 
 Lemma wf_SetTA v src off : wf_state (fst (step c s (SetTA v src off))).
